@@ -10,7 +10,7 @@ for ID in $IDS; do
   P=$(python3 -c "import json;print(json.load(open('$D/meta.json'))['breaks_property'])" 2>/dev/null) || continue
   git -C "$R" checkout -q -- . ; git -C "$R" apply $D/patch.diff 2>/dev/null || git -C "$R" apply --3way $D/patch.diff 2>/dev/null || { echo "$ID $P: patch does not apply"; continue; }
   (cd sim && cargo build --profile sim --offline 2>&1 | grep -E "^error" -A5 | head -8)
-  OUT=$(./sim/target/sim/sim check $P quick 2>&1 | grep -E 'VIOLATION|HARNESS|class=|^check')
+  OUT=$(VERIF_NO_EVIDENCE=1 ./sim/target/sim/sim check $P quick 2>&1 | grep -E 'VIOLATION|HARNESS|class=|^check')
   FIRST=$(echo "$OUT" | grep -oE "class=[a-z_.]+ (case|miri_seed)=[0-9]+" | head -3 | tr '\n' ';')
   EXIT=$(echo "$OUT" | grep -oE "exit=[0-9]+" | tail -1)
   echo "$ID $P: $EXIT $FIRST"
